@@ -146,7 +146,7 @@ class KindDomain(Domain):
         self,
         defaults: Optional[Dict[str, FrozenSet[str]]] = None,
         undefined_names: Iterable[str] = ("UNDEFINED",),
-        elem_default: FrozenSet[str] = JSON_KINDS,
+        elem_default: FrozenSet[str] = ALL_KINDS,
         helpers: Optional[Dict[str, Tuple[List[str], ast.expr]]] = None,
     ) -> None:
         self.defaults = dict(defaults or {})
